@@ -398,68 +398,4 @@ theorem dropWhile_head_not (p : Char → Bool) : ∀ (l : List Char) (c : Char) 
       cases h
       simpa using ha
 
-theorem classify_int {s : Str} {v : Int} (h : parseInt s = some v) :
-    ∃ d, classifyF64 s = .dec d ∧ d.scale = 0 ∧ d.num = v ∧ d.ndigits ≤ s.length := by
-  cases s with
-  | nil => simp [parseInt] at h
-  | cons c r =>
-    -- the digits after the optional sign
-    have body : ∀ (neg : Bool) (l : List Char), l ≠ [] → l.all isDigit = true →
-        (l = (if c = '-' ∨ c = '+' then r else c :: r)) → (neg = decide (c = '-')) →
-        ∃ d, classifyF64 (c :: r) = .dec d ∧ d.scale = 0 ∧
-          d.num = (if neg then - (digitsVal l : Int) else digitsVal l) ∧ d.ndigits = l.length := by
-      intro neg l hne hall hl hneg
-      obtain ⟨htw, hdw⟩ := takeWhile_all hall
-      refine ⟨{ neg := neg, mant := digitsVal l, scale := 0, ndigits := l.length }, ?_, rfl, rfl, rfl⟩
-      unfold classifyF64
-      simp only [← hl, htw, hdw]
-      rw [if_neg hne]
-      have : ¬ (l.length + 0 = 0) := by
-        have := List.length_pos_iff.mpr hne
-        omega
-      simp [hneg, hne]
-    simp only [parseInt] at h
-    by_cases hp : c = '+'
-    · subst hp
-      simp only [if_true] at h
-      cases hd : parseDigits r with
-      | none => simp [hd] at h
-      | some n =>
-        simp [hd] at h
-        unfold parseDigits at hd
-        split at hd
-        · rename_i hc
-          cases hd
-          obtain ⟨d, h1, h2, h3, h4⟩ := body false r hc.1 hc.2 (by simp) (by decide)
-          exact ⟨d, h1, h2, by rw [h3, ← h]; rfl, by simp [h4]⟩
-        · cases hd
-    · rw [if_neg hp] at h
-      by_cases hm : c = '-'
-      · subst hm
-        simp only [if_true] at h
-        cases hd : parseDigits r with
-        | none => simp [hd] at h
-        | some n =>
-          simp [hd] at h
-          unfold parseDigits at hd
-          split at hd
-          · rename_i hc
-            cases hd
-            obtain ⟨d, h1, h2, h3, h4⟩ := body true r hc.1 hc.2 (by simp) (by decide)
-            exact ⟨d, h1, h2, by rw [h3, ← h]; rfl, by simp [h4]⟩
-          · cases hd
-      · rw [if_neg hm] at h
-        cases hd : parseDigits (c :: r) with
-        | none => simp [hd] at h
-        | some n =>
-          simp [hd] at h
-          unfold parseDigits at hd
-          split at hd
-          · rename_i hc
-            cases hd
-            obtain ⟨d, h1, h2, h3, h4⟩ :=
-              body false (c :: r) hc.1 hc.2 (by simp [hp, hm]) (by simp [hm])
-            exact ⟨d, h1, h2, by rw [h3, ← h]; rfl, by simp [h4]⟩
-          · cases hd
-
 end Duck.Strings
